@@ -3,6 +3,6 @@ CONSTANTS
   T = 3
   Interval = 1
   MaxNow = 4
-  Deviations = {}
+  Deviations = {"NoLoginDeadline"}
 PROPERTIES Heals
 CHECK_DEADLOCK FALSE
